@@ -428,6 +428,17 @@ func vRunSchedNs(w *VWorld, sc *SchedScenario, prefix []int, horizon int) *vsync
 					if err := h.nsUse(op, obs[ti]); err != nil {
 						results[ti][oi] = r{err: err.Error()}
 					}
+				case "baduse":
+					// a batch that the store must reject (a null reference value, as a posted "refs":{"p":null} gives):
+					// its failure must not disturb anybody else's identifiers
+					ds := w.Dsm.GetDataset(h.DsName(op.DS))
+					c1, _ := w.Store.GetNamespacedIdentifier(fmt.Sprintf("http://bad.h%s/x%d", h.Tag, op.N), nil)
+					c2, _ := w.Store.GetNamespacedIdentifier(fmt.Sprintf("http://bad.h%s/p%d", h.Tag, op.N), nil)
+					e := NewEntity(c1, 0)
+					e.References[c2] = nil
+					if err := ds.StoreEntities([]*Entity{e}); err == nil {
+						results[ti][oi] = r{err: "harness: the batch with a null reference was accepted"}
+					}
 				}
 			}
 		})
@@ -579,6 +590,7 @@ func init() {
 			{Name: "N1-assert-same-vs-reader", Oracle: "ns", Threads: [][]VOp{{{K: "assert", N: 1}}, {{K: "assert", N: 1}}, {{K: "ctxread"}}}},
 			{Name: "N2-assert-different-vs-dataset-context", Oracle: "ns", Threads: [][]VOp{{{K: "assert", N: 1}}, {{K: "assert", N: 2}}, {{K: "ctxread", DS: "A"}}}},
 			{Name: "N3-two-writers-same-new-identifiers", Oracle: "ns", Threads: [][]VOp{{{K: "use", DS: "A", N: 0}}, {{K: "use", DS: "B", N: 2}}}},
+			{Name: "N5-writer-vs-rejected-batch", Oracle: "ns", Threads: [][]VOp{{{K: "use", DS: "A", N: 0}}, {{K: "baduse", DS: "B", N: 1}, {K: "baduse", DS: "B", N: 2}}}},
 			{Name: "N4-writer-vs-reader", Oracle: "ns", Threads: [][]VOp{{{K: "use", DS: "A", N: 1}}, {{K: "ctxread"}, {K: "ctxread", DS: "B"}}}},
 		}
 		for _, sc := range scs {
